@@ -63,6 +63,35 @@ theorem T_C03_defaults (c : ℤ) (x : ℚ) :
   refine ⟨rfl, rfl, rfl, rfl, rfl, ?_⟩
   omega
 
+/-- a count written as a float (`count = length / size`) is truncated before anything is calculated: the chop holds
+    the whole number of cells `n` with `n ≤ q < n + 1` (one cell for `q < 1`), and that `n` is what every relation sees -/
+theorem T_C03_count_truncation (q : ℚ) (x : ℚ) :
+    (postInit (some (countOfRat q)) none none (some x) none).count = some (max (countOfRat q) 1).toNat ∧
+    1 ≤ (max (countOfRat q) 1).toNat ∧
+    (1 ≤ q → ((max (countOfRat q) 1).toNat : ℚ) ≤ q ∧ q < ((max (countOfRat q) 1).toNat : ℚ) + 1) ∧
+    (q < 1 → (max (countOfRat q) 1).toNat = 1) := by
+  have hle := Rat.floor_le q
+  have hlt := Rat.lt_floor_add_one q
+  unfold countOfRat
+  refine ⟨rfl, by omega, ?_, ?_⟩
+  · intro h1
+    have hf : 1 ≤ q.floor := Rat.le_floor_iff.mpr (by simpa using h1)
+    have hm : max q.floor 1 = q.floor := max_eq_left hf
+    have hc : (((max q.floor 1).toNat : ℕ) : ℚ) = (q.floor : ℚ) := by
+      rw [hm]
+      have : ((q.floor.toNat : ℕ) : ℤ) = q.floor := Int.toNat_of_nonneg (by omega)
+      exact_mod_cast this
+    rw [hc]
+    refine ⟨hle, ?_⟩
+    have : ((q.floor + 1 : ℤ) : ℚ) = (q.floor : ℚ) + 1 := by push_cast; ring
+    rw [← this]; exact hlt
+  · intro h1
+    have hf : q.floor < 1 := Rat.floor_lt_iff.mpr (by simpa using h1)
+    have hm : max q.floor 1 = 1 := max_eq_right (by omega)
+    rw [hm]; rfl
+
+example : countOfRat (15 / 2) = 7 ∧ countOfRat 10 = 10 ∧ (max (countOfRat (1 / 2)) 1).toNat = 1 := by decide +kernel
+
 /-! ### 2. the progression -/
 
 /-- the cells fill the edge, consecutive cells have ratio `r`, last / first = `r^(n-1)` -/
